@@ -117,3 +117,12 @@ def register(check):
           floors={"quick": {"idstorm_runs": 100, "idstorm_rpcs": 3000, "idstorm_completed": 2000, "yield:client.newStream.allocated": 3000, "raw_bad_new_stream_id": 30, "raw_conversations": 300},
                   "thorough": {"idstorm_runs": 3500, "idstorm_rpcs": 100000, "raw_bad_new_stream_id": 500}},
           assumptions=COMMON_ASSUMPTIONS)
+    check("C16",
+          level="fault_enumeration",
+          rule="enumeration: raw tunnel clients send {0,1,2,3,6} request messages (sizes incl. 20 kB = split across chunks, 16384, 0) for each of the four shapes x half-close {at the end, after the first message, never, cancel instead} x {sequential, burst} x {forward, reverse}; "
+               "raw tunnel servers send 0 / 1 / 2 / truncated responses to callers of each shape; real applications issue a second send on a non-streaming side in every configuration (wire checked for a second envelope); "
+               "non-trivial = a shape verdict was reached; distinct = distinct (shape, half-close position, count, cfg, outcome shape)",
+          nontrivial="tap_events",
+          floors={"quick": {"shape16_runs": 300, "shape16_non_streaming_checked": 150, "shape16_two_requests_cases": 40, "appsend16_second_sends": 20, "rawsrv_conversations": 60},
+                  "thorough": {"shape16_runs": 9000, "shape16_two_requests_cases": 1200, "appsend16_second_sends": 600}},
+          assumptions=COMMON_ASSUMPTIONS + ["'success' for a non-server-streaming caller is judged as the generated stubs see it: Invoke returning nil, or a response message followed by end-of-stream"])
